@@ -16,13 +16,33 @@ import (
 	"strconv"
 	"strings"
 	"time"
+
+	"gosym/interp"
 )
 
 const (
-	repoDir  = "/repo"
 	verifDir = "/verif"
 	modPath  = "github.com/B1NARY-GR0UP/originium"
 )
+
+// repoDir is /repo.  VCHECK_REPO points the tool at a scratch worktree instead; it exists
+// only so that seeded changes can be evaluated without touching /repo (registered commands
+// never set it).  Evidence and replay files then go to $VCHECK_OUT instead of /verif.
+var repoDir = "/repo"
+var outDir = verifDir
+
+func init() {
+	if d := os.Getenv("VCHECK_REPO"); d != "" {
+		repoDir = d
+		interp.RepoPrefix = d + "/"
+		if o := os.Getenv("VCHECK_OUT"); o != "" {
+			outDir = o
+		} else {
+			outDir = d + "/_vcheck"
+		}
+		os.MkdirAll(outDir, 0755)
+	}
+}
 
 func main() {
 	prop := flag.String("prop", "", "property id (C01..C17)")
@@ -54,7 +74,7 @@ func main() {
 		os.Exit(2)
 	}
 	t0 := time.Now()
-	work := filepath.Join(verifDir, ".work", fmt.Sprintf("%s-%s-%d", *prop, *tier, os.Getpid()))
+	work := filepath.Join(outDir, ".work", fmt.Sprintf("%s-%s-%d", *prop, *tier, os.Getpid()))
 	os.MkdirAll(work, 0755)
 
 	ld, err := loadProgram()
